@@ -57,7 +57,7 @@ DefaultAlloc == 1
 NObjs(fx, vs, k) == CASE P[k].k = "fixed" -> fx[k] [] P[k].k = "varying" -> vs[k] [] OTHER -> 1
 NoFixed == [k \in 1..Len(P) |-> 0]
 
-Val(t, salt, k, j) == ((t * 7 + salt * 13 + k * 5 + j * 3) % 250) + 1
+Val(t, salt, k, j) == ((t * 7 + salt * 13 + k * 5 + j * 3) % 240) + 1       \* 1..240; 241..250 are free for WriteItem
 
 MkElem(t, salt, vs, fx) ==
   [t |-> t,
@@ -280,6 +280,59 @@ PreElemDestroy(S0, x) == EPresent(S0, x)
 EffElemDestroy(S0, x) == SetEl(S0, x, Absent)
 
 (***************************************************************************)
+(* References and iterators as proxies (C11).  All operands are positions  *)
+(* (0-based) in vectors; contents move between positions, sizes and the    *)
+(* sequence structure never change.  Assignment and swap between two       *)
+(* references require equal field sizes (documented precondition).         *)
+(***************************************************************************)
+At(S0, v, i) == S0.vec[v].elems[i + 1]
+PreRef2(S0, v, i, w, j) == InRange(S0, v, i) /\ InRange(S0, w, j) /\ SameShape(At(S0, v, i), At(S0, w, j))
+
+\* vec[v][i] = const reference to vec[w][j]   (copy)
+EffRefAssign(S0, v, i, w, j) == [S0 EXCEPT !.vec[v].elems[i + 1] = At(S0, w, j)]
+\* vec[v][i] = std::move(mutable reference to vec[w][j])   (moves the values out of the source)
+EffRefMoveAssign(S0, v, i, w, j) ==
+  IF v = w /\ i = j THEN S0
+  ELSE LET src == At(S0, w, j)
+           S1 == [S0 EXCEPT !.vec[w].elems[j + 1] = MovedFromElem(src)]
+       IN  [S1 EXCEPT !.vec[v].elems[i + 1] = src]
+\* swap(vec[v][i], vec[w][j]) and std::iter_swap
+EffRefSwap(S0, v, i, w, j) ==
+  LET a == At(S0, v, i)  b == At(S0, w, j)
+      S1 == [S0 EXCEPT !.vec[v].elems[i + 1] = b]
+  IN  [S1 EXCEPT !.vec[w].elems[j + 1] = a]
+
+\* write one stored value through an access path (k = parameter, q = item, both 1-based)
+PreWriteItem(S0, v, i, k, q, val) ==
+  /\ InRange(S0, v, i) /\ k \in Idx /\ P[k].k # "count"
+  /\ q >= 1 /\ q <= Len(At(S0, v, i).f[k])
+EffWriteItem(S0, v, i, k, q, val) == [S0 EXCEPT !.vec[v].elems[i + 1].f[k][q] = val]
+
+\* permuting algorithms over [first, last) of one vector: all elements of the range have equal field sizes
+RangeOK(S0, v, f, l) ==
+  /\ Live(S0, v) /\ 0 <= f /\ f <= l /\ l <= Size(S0, v)
+  /\ \A a \in f..(l - 1), b \in f..(l - 1) : SameShape(At(S0, v, a), At(S0, v, b))
+SubElems(S0, v, f, l) == SubSeq(S0.vec[v].elems, f + 1, l)
+Splice(S0, v, f, l, mid) ==
+  [S0 EXCEPT !.vec[v].elems = SubSeq(@, 1, f) \o mid \o SubSeq(@, l + 1, Len(@))]
+RevSeq(q) == [x \in 1..Len(q) |-> q[Len(q) + 1 - x]]
+
+PreRotate(S0, v, f, m, l) == RangeOK(S0, v, f, l) /\ f <= m /\ m <= l
+EffRotate(S0, v, f, m, l) == Splice(S0, v, f, l, SubElems(S0, v, m, l) \o SubElems(S0, v, f, m))
+PreReverse(S0, v, f, l) == RangeOK(S0, v, f, l)
+EffReverse(S0, v, f, l) == Splice(S0, v, f, l, RevSeq(SubElems(S0, v, f, l)))
+\* std::swap_ranges(v.begin()+f, v.begin()+l, w.begin()+g)   (two different vectors)
+PreSwapRanges(S0, v, f, l, w, g) ==
+  /\ v # w /\ RangeOK(S0, v, f, l) /\ Live(S0, w) /\ 0 <= g /\ g + (l - f) <= Size(S0, w)
+  /\ \A d \in 0..(l - f - 1) : SameShape(At(S0, v, f + d), At(S0, w, g + d))
+EffSwapRanges(S0, v, f, l, w, g) ==
+  LET a == SubElems(S0, v, f, l)  b == SubElems(S0, w, g, g + (l - f))
+  IN  Splice(Splice(S0, v, f, l, b), w, g, g + (l - f), a)
+
+\* iterator arithmetic is integer arithmetic on indices: the driver logs the whole table, Trace.tla compares
+PreIterProbe(S0, v) == Live(S0, v)
+
+(***************************************************************************)
 (* Dispatch on the operation name - used by the generator actions below    *)
 (* and by Trace.tla.                                                       *)
 (***************************************************************************)
@@ -288,6 +341,8 @@ VecOps1 == {"Construct", "DefaultConstruct", "Destroy", "Emplace", "PopBack", "E
 VecOps2 == {"CopyConstruct", "CopyAssign", "MoveConstruct", "MoveAssign", "Swap"}
 ElemOps == {"ElemFromRef", "ElemFromRvRef", "ElemCopy", "ElemMove", "ElemCopyAlloc", "ElemMoveAlloc",
             "ElemCopyAssign", "ElemMoveAssign", "ElemSwap", "ElemAssignFromRef", "ElemAssignFromRvRef", "ElemDestroy"}
+RefOps == {"RefAssign", "RefMoveAssign", "RefSwap", "IterSwap", "WriteItem", "Rotate", "Reverse", "SwapRanges",
+           "IterProbe"}
 ElemOps2 == {"ElemCopy", "ElemMove", "ElemCopyAlloc", "ElemMoveAlloc", "ElemCopyAssign", "ElemMoveAssign", "ElemSwap"}
 
 PreOf(S0, n, v, a) ==
@@ -312,6 +367,12 @@ PreOf(S0, n, v, a) ==
     [] n \in {"ElemAssignFromRef", "ElemAssignFromRvRef"}  -> PreElemAssignFromRef(S0, v, a[1], a[2])
     [] n \in {"RefAssignFromElem", "RefAssignFromRvElem"}  -> PreRefAssignFromElem(S0, v, a[1], a[2])
     [] n = "ElemDestroy"      -> PreElemDestroy(S0, v)
+    [] n \in {"RefAssign", "RefMoveAssign", "RefSwap", "IterSwap"} -> PreRef2(S0, v, a[1], a[2], a[3])
+    [] n = "WriteItem"        -> PreWriteItem(S0, v, a[1], a[2], a[3], a[4])
+    [] n = "Rotate"           -> PreRotate(S0, v, a[1], a[2], a[3])
+    [] n = "Reverse"          -> PreReverse(S0, v, a[1], a[2])
+    [] n = "SwapRanges"       -> PreSwapRanges(S0, v, a[1], a[2], a[3], a[4])
+    [] n = "IterProbe"        -> PreIterProbe(S0, v)
     [] OTHER                  -> FALSE
 
 EffOf(S0, n, v, a, par) ==
@@ -343,6 +404,14 @@ EffOf(S0, n, v, a, par) ==
     [] n = "RefAssignFromElem"   -> EffRefAssignFromElem(S0, v, a[1], a[2])
     [] n = "RefAssignFromRvElem" -> EffRefAssignFromRvElem(S0, v, a[1], a[2])
     [] n = "ElemDestroy"      -> EffElemDestroy(S0, v)
+    [] n = "RefAssign"        -> EffRefAssign(S0, v, a[1], a[2], a[3])
+    [] n = "RefMoveAssign"    -> EffRefMoveAssign(S0, v, a[1], a[2], a[3])
+    [] n \in {"RefSwap", "IterSwap"} -> EffRefSwap(S0, v, a[1], a[2], a[3])
+    [] n = "WriteItem"        -> EffWriteItem(S0, v, a[1], a[2], a[3], a[4])
+    [] n = "Rotate"           -> EffRotate(S0, v, a[1], a[2], a[3])
+    [] n = "Reverse"          -> EffReverse(S0, v, a[1], a[2])
+    [] n = "SwapRanges"       -> EffSwapRanges(S0, v, a[1], a[2], a[3], a[4])
+    [] n = "IterProbe"        -> S0
 
 (* constraint on logged parameters: what the properties do fix *)
 ParOK(S0, n, v, a, par) ==
@@ -398,6 +467,21 @@ ElemRefAssign    == \E x \in Elems, v \in Vecs, i \in IdxSpace :
                        \/ Do("ElemAssignFromRef", x, <<v, i>>) \/ Do("ElemAssignFromRvRef", x, <<v, i>>)
                        \/ Do("RefAssignFromElem", v, <<i, x>>) \/ Do("RefAssignFromRvElem", v, <<i, x>>)
 ElemDestroy      == \E x \in Elems : Do("ElemDestroy", x, <<>>)
+RefAssign        == \E v \in Vecs, w \in Vecs, i \in IdxSpace, j \in IdxSpace :
+                       \/ Do("RefAssign", v, <<i, w, j>>) \/ Do("RefMoveAssign", v, <<i, w, j>>)
+                       \/ Do("RefSwap", v, <<i, w, j>>) \/ Do("IterSwap", v, <<i, w, j>>)
+\* written values: a value that no element holds (241.. are outside Val's range 1..240), one per access path
+WriteItem        == \E v \in Vecs, i \in IdxSpace, k \in Idx :
+                       /\ vec[v].st = "live"
+                       \* one written value per vector at a time keeps the generator finite and small
+                       /\ \A z \in 1..Len(vec[v].elems) : \A k2 \in Idx : \A q2 \in 1..Len(vec[v].elems[z].f[k2]) :
+                             P[k2].k = "count" \/ vec[v].elems[z].f[k2][q2] <= 240
+                       /\ \E q \in {1, NObjs(vec[v].fx, [z \in Idx |-> MaxCount], k)} :
+                             LET pth == (i + k + q) % 6 IN Do("WriteItem", v, <<i, k, q, 241 + pth, pth>>)
+Permute          == \E v \in Vecs, f \in 0..MaxReserve, m \in 0..MaxReserve, l \in 0..MaxReserve :
+                       \/ Do("Rotate", v, <<f, m, l>>) \/ (m = f /\ Do("Reverse", v, <<f, l>>))
+                       \/ \E w \in Vecs, g \in 0..MaxReserve : m = f /\ Do("SwapRanges", v, <<f, l, w, g>>)
+IterProbe        == \E v \in Vecs : Do("IterProbe", v, <<>>)
 
 Init == /\ vec = [v \in Vecs |-> Absent]
         /\ el = [x \in Elems |-> Absent]
@@ -406,6 +490,7 @@ Init == /\ vec = [v \in Vecs |-> Absent]
 Next == \/ Construct \/ DefaultConstruct \/ Destroy \/ EmplaceBack \/ PopBack \/ Erase \/ EraseRange
         \/ Clear \/ Reserve \/ CopyConstruct \/ CopyAssign \/ MoveConstruct \/ MoveAssign \/ Swap
         \/ ElemFromRef \/ ElemCopyMove \/ ElemAssign \/ ElemRefAssign \/ ElemDestroy
+        \/ RefAssign \/ WriteItem \/ Permute \/ IterProbe
 
 Spec == Init /\ [][Next]_vars
 
@@ -441,7 +526,9 @@ CopyIndependent ==
   [][\A v \in Vecs : (vec'[v] # vec[v]) =>
         \/ (act'.v = v /\ act'.n \notin ElemOps)
         \/ (act'.n \in {"MoveConstruct", "MoveAssign", "Swap"} /\ act'.a[1] = v)
-        \/ (act'.n \in {"ElemFromRvRef", "ElemAssignFromRvRef"} /\ act'.a[1] = v)]_vars
+        \/ (act'.n \in {"ElemFromRvRef", "ElemAssignFromRvRef"} /\ act'.a[1] = v)
+        \/ (act'.n \in {"RefMoveAssign", "RefSwap", "IterSwap"} /\ act'.a[2] = v)
+        \/ (act'.n = "SwapRanges" /\ act'.a[3] = v)]_vars
 
 \* C12: an element is an independent deep copy - operations on vectors never change an element, and
 \*      element operations change a vector only when they move out of it / assign into it
